@@ -57,7 +57,7 @@ DEFAULT_BEHAVIOURS: Dict[str, Any] = {
 EXC_NAMES = ['ValueError', 'KeyError', 'TypeError', 'AssertionError', 'RuntimeError', 'ZzCustomBoom', 'ZzLookup', 'OSError',
              'ZeroDivisionError', 'AttributeError', 'StopIteration', 'UnicodeDecodeError', 'ValidationError', 'ValidationError', 'DeserializationError',
              'TimeoutError', 'TimeoutError', 'NotImplementedError', 'RecursionError', 'ConnectionResetError', 'FileNotFoundError', 'IndexError',
-             'StopAsyncIteration', 'MemoryError', 'ZzUnprintable', 'ZzRaisedFromRpcError', 'ZzRaisedWhileHandlingRpcError', 'ArithmeticError', 'LookupError', 'PermissionError', 'BufferError', 'EOFError', 'ImportError', 'NameError']
+             'StopAsyncIteration', 'MemoryError', 'ZzUnprintable', 'ZzHttpLikeError', 'ZzRaisedFromRpcError', 'ZzRaisedWhileHandlingRpcError', 'ArithmeticError', 'LookupError', 'PermissionError', 'BufferError', 'EOFError', 'ImportError', 'NameError']
 
 ERR_CODES = [0, 1, -1, 7, 2005, 2006, -32700, -32600, -32601, -32602, -32603, -32000, -32001, -32050, -32099, 2001, 2002, 2**31, -2**31, 10**30]
 
